@@ -1466,7 +1466,7 @@ class C35(Prop):
             yield from C35._agg_lets(ch)
 
     def extra_coverage(self):
-        s = self.stats
+        s = getattr(self, 'stats', {'verified': 0, 'eval_only': 0, 'programs': 0, 'known': {}})
         return {'programs': s['programs'], 'disagreements_checked': s['programs'],
                 'programs_accepted_by_verified_validator': s['verified'],
                 'programs_checked_by_scope_and_evaluation_only': s['eval_only'],
